@@ -311,14 +311,18 @@ template <typename Type>
 inline typename Enable_If<Is_Singleton<Type>::value
                           || Is_Interval<Type>::value, bool>::type
 Interval<Boundary, Info>::can_be_exactly_joined_to(const Type& x) const {
-  PPL_DIRTY_TEMP(Boundary, b);
+  // If one interval lies entirely above the other, their union is an
+  // interval if and only if they touch: the facing boundaries have the
+  // same (finite) value and at least one of them is closed.
   if (gt(LOWER, lower(), info(), UPPER, f_upper(x), f_info(x))) {
-    b = lower();
-    return eq(LOWER, b, info(), UPPER, f_upper(x), f_info(x));
+    return equal(lower(), f_upper(x))
+      && !(is_open(LOWER, lower(), info())
+           && is_open(UPPER, f_upper(x), f_info(x)));
   }
   else if (lt(UPPER, upper(), info(), LOWER, f_lower(x), f_info(x))) {
-    b = upper();
-    return eq(UPPER, b, info(), LOWER, f_lower(x), f_info(x));
+    return equal(upper(), f_lower(x))
+      && !(is_open(UPPER, upper(), info())
+           && is_open(LOWER, f_lower(x), f_info(x)));
   }
   return true;
 }
